@@ -132,7 +132,7 @@ let () =
              match expand_flat (features feats) d with
              | Ok l -> ("OK", String.concat "\x1f" l)
              | Err e -> ("ERR", err_name e)
-             | Panic s -> ("PANIC", s)
+             | Panic _ -> ("PANIC", "")
              | OutOfDomain w -> ("OOD", w)
            with Failure m -> ("BADINPUT", m)) in
         print_string id; print_char '\t'; print_string cls; print_char '\t';
